@@ -200,6 +200,7 @@ func runCheck(prop, tier, only string, verbose bool) int {
 		agg.Asserts += res.Asserts
 		agg.NonTrivial += res.NonTrivial
 		agg.Folded += res.Folded
+		agg.Fallbacks += res.Fallbacks
 		agg.Unknowns += res.Unknowns
 		agg.Merges += res.Merges
 		agg.MergeFails += res.MergeFails
@@ -501,6 +502,7 @@ func writeEvidence(prop, tier string, seed int64, spec PropSpec, agg *TaskResult
 		"outside_claim":                 spec.Outside,
 		"paths_by_outcome":              agg.EndKinds,
 		"obligations_folded":            agg.Folded,
+		"second_solver_verdicts":        agg.Fallbacks,
 		"queries":                       map[string]int{"total": agg.Solver.Queries, "unsat": agg.Solver.Unsat, "sat": agg.Solver.Sat, "unknown": agg.Solver.Unknown, "error_lines": agg.Solver.Errors},
 		"solver_time_s":                 agg.Solver.Time.Seconds(),
 		"max_query_s":                   agg.Solver.MaxQuery.Seconds(),
@@ -521,6 +523,10 @@ func writeEvidence(prop, tier string, seed int64, spec PropSpec, agg *TaskResult
 		"violations":  violations,
 	}
 	b, _ := json.MarshalIndent(ev, "", " ")
-	os.MkdirAll(filepath.Join(verifDir(), "evidence"), 0o755)
-	os.WriteFile(filepath.Join(verifDir(), "evidence", prop+".json"), b, 0o644)
+	evDir := filepath.Join(verifDir(), "evidence")
+	if so := scratchOut(); so != "" {
+		evDir = filepath.Join(so, "evidence")
+	}
+	os.MkdirAll(evDir, 0o755)
+	os.WriteFile(filepath.Join(evDir, prop+".json"), b, 0o644)
 }
